@@ -16,7 +16,8 @@ inductive SrvEv
   | fileDelete | fileCorrupt | fileRepair | folderDelete
   | admin (a : Admin)
   | dl (a : DlOp)
-  | reinstall (cfg : Option (Option Nat × Bool))
+  | fsr (db : Bool) (a : FsAct)
+  | reinstall (cfg : Option InstCfg)
   | powerOn | powerOff
   | tick (b : Backup) (t : Nat) (pq pr big sendOk : Bool)
 
@@ -29,6 +30,7 @@ def SrvEv.apply (s : Server) : SrvEv → Server
   | .folderDelete => s.folderDelete.1
   | .admin a => (s.admin a).1
   | .dl a => (s.dl a).1
+  | .fsr db a => (s.fsr db a).1
   | .reinstall cfg => (s.reinstall cfg).1
   | .fileDelete => s.fileDelete.1
   | .fileCorrupt => s.fileCorrupt.1
@@ -87,6 +89,7 @@ def OpAllows : Op → SrvEv → Prop
   | .folderDelete, e => e = .folderDelete
   | .admin a, e => e = .admin a
   | .dl a, e => e = .dl a
+  | .fsr db a, e => e = .fsr db a
   | .svcInstall cfg, e => e = .reinstall cfg
   | .co _, _ => False
   | .bkDelete, _ => False
@@ -390,6 +393,7 @@ theorem step_reach (st : State) (op : Op) : Reach (OpAllows op) st.srv (step st 
   | folderDelete => exact Reach.single (A := OpAllows .folderDelete) st.srv .folderDelete rfl
   | admin a => exact Reach.single (A := OpAllows (.admin a)) st.srv (.admin a) rfl
   | dl a => exact Reach.single (A := OpAllows (.dl a)) st.srv (.dl a) rfl
+  | fsr db a => exact Reach.single (A := OpAllows (.fsr db a)) st.srv (.fsr db a) rfl
   | svcInstall cfg =>
     simp only [step]
     split
